@@ -63,6 +63,17 @@ Theorem C06_querier_warn_succeeds : forall lazy batch (scripts : list script),
 Proof. exact querier_warn_succeeds. Qed.
 Print Assumptions C06_querier_warn_succeeds.
 
+(* Failure kinds: both receivers (lazy and eager; tests regenerated from the source) treat a Recv
+   error as the clean end of a stream only when it IS io.EOF. An error that merely wraps io.EOF
+   (errors.Is would accept it: net/http `Post "...": EOF`), io.ErrUnexpectedEOF, a gRPC status, a
+   context cancellation ... keeps the store a failing store, so the scripts the theorems above
+   speak about are the scripts the receivers see, whatever the kind of the error. *)
+Theorem C06_only_io_eof_ends_a_stream : forall lazy wrl wraps (scripts : list script),
+  effective_all lazy wrl wraps scripts = scripts
+  /\ forall w, recv_eos_lazy false w = false /\ recv_eos_eager false w = false.
+Proof. exact only_io_eof_ends_a_stream. Qed.
+Print Assumptions C06_only_io_eof_ends_a_stream.
+
 (* The frame-timeout timer of a lazy receiver (handleRecvResponse), with the pause condition and
    its position regenerated from the source: it is paused after cl.Recv() returned and before the
    first (possibly blocking) append into the ring buffer, whatever the buffer state. Hence, for
